@@ -83,7 +83,7 @@ Theorem C11_future_first_in_block : forall P S out, print_set P S = Some out ->
   exists col fut rest,
     get_statements (separate_from_imports P) S = fut ++ rest /\
     Forall is_future_stmt fut /\ Forall (fun st => ~ is_future_stmt st) rest /\
-    out = concat (map (pp P col) fut) ++ concat (map (pp P col) rest).
+    out = List.concat (map (pp P col) fut) ++ List.concat (map (pp P col) rest).
 Proof. exact future_first_in_block. Qed.
 Print Assumptions C11_future_first_in_block.
 
